@@ -15,7 +15,6 @@
 package redis
 
 import (
-	"bytes"
 	"errors"
 	"fmt"
 	"strconv"
@@ -117,7 +116,7 @@ func (r *simpleRequest) Body() *RespValue {
 }
 
 func (r *simpleRequest) IsReadOnly() bool {
-	_, ok := readOnlyCommands[string(bytes.ToLower(r.body.Array[0].Text))]
+	_, ok := readOnlyCommands[lowerASCII(r.body.Array[0].Text)]
 	return ok
 }
 
